@@ -20,6 +20,7 @@ import tymodel as T
 import ir2coq
 import progs
 import wholeprog as W
+import handprogs
 
 WIDEN = {
     "java": {"ByteType": ["ShortType", "IntegerType", "LongType", "FloatType", "DoubleType"],
@@ -72,14 +73,20 @@ def run(tier, seed, replay=None):
     items = []
     t0 = time.time()
     crashes = []
-    for lang in T.LANGS:
+    ndir = 24 if tier == "quick" else 600
+    work = [(lang, s, False) for lang in T.LANGS for s in range(nper)] + [(lang, s, True) for lang in T.LANGS for s in range(ndir)]
+    for lang, s, directed in work:
         L = langs[lang]
-        for s in range(nper):
-            sd = C.sub_seed(seed, "c04", lang, s) % (2 ** 31)
+        if True:
+            sd = C.sub_seed(seed, "c04d" if directed else "c04", lang, s) % (2 ** 31)
             progs.set_cfg(rows[0])
             try:
-                p = progs.generate(lang, sd)
-                if s % 2 == 0:
+                if directed:
+                    progs.generate_setup(lang, sd)
+                    p = handprogs.build(lang, sd)
+                else:
+                    p = progs.generate(lang, sd)
+                if s % 2 == 0 and not directed:
                     te = TypeErasure(p, lang, None, {"timeout": 600})
                     te.transform()
                     p = te.result()
@@ -98,9 +105,11 @@ def run(tier, seed, replay=None):
                 crashes.append((lang, sd, "%s: %s" % (type(e).__name__, str(e)[:150])))
                 continue
             items.append(dict(lang=lang, seed=sd, L=L, n1=n1, n2=n2, ser=after, transformed=bool(to.is_transformed),
-                              msg=to.error_injected, erased_first=(s % 2 == 0), pickled=pickle.dumps(p2)))
+                              msg=to.error_injected, erased_first=(s % 2 == 0 and not directed), directed=directed,
+                              pickled=pickle.dumps(p2)))
     t_gen = time.time() - t0
     per = 4
+    items.sort(key=lambda it: it['directed'])
     files = []
     hdr = W.HDR.replace("IR.Check", "IR.Check IR.Diff IR.Overwrite")
     for k in range(0, len(items), per):
@@ -165,16 +174,19 @@ def run(tier, seed, replay=None):
         if problem:
             binp = os.path.join(C.REPLAYS, "C04", "prog-%s-%d.bin" % (it["lang"], it["seed"]))
             open(binp, "wb").write(it["pickled"])
-            rep.violation(cat, "%s seed %d%s: %s [message: %s]" % (it["lang"], it["seed"], " (after erasure)" if it["erased_first"] else "",
+            rep.violation(cat, "%s %sseed %d%s: %s [message: %s]" % (it["lang"], "directed program " if it["directed"] else "", it["seed"],
+                                                                     " (after erasure)" if it["erased_first"] else "",
                                                                    problem, it["msg"]),
-                          dict(lang=it["lang"], seed=it["seed"], erased_first=it["erased_first"], report=it["report"],
+                          dict(lang=it["lang"], seed=it["seed"], directed=it["directed"], erased_first=it["erased_first"], report=it["report"],
                                message=it["msg"], program_bin=binp, shape=cat))
     if not proof_ok and not rep.violations:
         rep.violation("proof", rep.proof_broken, dict(broken=rep.proof_broken), no_input=True)
-    rep.add(programs=len(items), injected=injected, disagreements_checked=sum(v for k, v in hist.items() if k not in ("ok", "not-injected")),
+    rep.add(programs=len(items), directed_programs=sum(1 for it in items if it["directed"]),
+            injected_in_directed=sum(1 for it in items if it["directed"] and it["transformed"]), injected=injected, disagreements_checked=sum(v for k, v in hist.items() if k not in ("ok", "not-injected")),
             evaluations=len(items), distinct_nontrivial=injected, category_histogram=hist, exceptions=len(crashes),
             exception_samples=[list(c) for c in crashes[:5]], generation_s=round(t_gen, 1),
-            rule="generated programs (every second one erased first) of the four languages; TypeOverwriting.transform() is applied and "
+            rule="generated programs (every second one erased first) of the four languages, plus directed small programs "
+                 "(harness/handprogs.py: deep hierarchies with indirect generic subclasses, equal type arguments of which one is free); TypeOverwriting.transform() is applied and "
                  "the before/after snapshots are compared in Coq: shape of the difference, relatedness of (old, new) by the proved "
                  "reference checker + language-level convertibility tables, typing errors of the reference checker before/after",
             samples=[dict(lang=it["lang"], seed=it["seed"], report=it.get("report"), message=it["msg"]) for it in items[:4]],
